@@ -26,6 +26,62 @@ class Spec:
         for x in list(d.get('dv', [])) + list(d.get('metrics', [])):
             self.nodes.append(x['name'])
             self.derive.setdefault(x['host'], []).append(x['name'])
+        self.conn = list(d.get('conn', []))
+        for cc in self.conn:
+            for side in ('src', 'tgt'):
+                for c in cc[side]:
+                    members = c['members'] if 'group' in c else [c]
+                    for m in members:
+                        self.nodes.append(m['name'])
+                        self.derive.setdefault(m['host'], []).append(m['name'])
+                        if 'group' in c:
+                            self.derive.setdefault(m['name'], []).append(c['group'])
+                    if 'group' in c:
+                        self.nodes.append(c['group'])
+
+    # -- connection choices
+    @staticmethod
+    def _degs(c):
+        d = c['deg']
+        if isinstance(d, list):
+            return {'conns': sorted(d), 'rep': bool(c.get('rep'))}
+        lo, hi = d.split('..')
+        if hi == '*':
+            return {'min': int(lo), 'rep': bool(c.get('rep'))}
+        return {'conns': list(range(int(lo), int(hi) + 1)), 'rep': bool(c.get('rep'))}
+
+    def conn_settings(self, cc, closure):
+        """Connector settings (ref_conn format) of a connection choice for the connectors present in `closure`:
+        -> (settings spec, pattern, source names, target names)."""
+        import itertools
+
+        def side(lst):
+            out, names, present = [], [], []
+            for c in lst:
+                if 'group' in c:
+                    mem = [m for m in c['members'] if m['name'] in closure]
+                    names.append(c['group'])
+                    present.append(bool(mem))
+                    if not mem:
+                        out.append({'conns': [0], 'rep': False})
+                        continue
+                    ds = [self._degs(m) for m in mem]
+                    rep = any(d['rep'] for d in ds)
+                    if any('min' in d for d in ds):
+                        out.append({'min': sum(d['min'] if 'min' in d else min(d['conns']) for d in ds), 'rep': rep})
+                    else:
+                        out.append({'conns': sorted({sum(t) for t in itertools.product(*[d['conns'] for d in ds])}),
+                                    'rep': rep})
+                else:
+                    names.append(c['name'])
+                    present.append(c['name'] in closure)
+                    out.append(self._degs(c))
+            return out, names, present
+
+        src, sn, sp = side(cc['src'])
+        tgt, tn, tp = side(cc['tgt'])
+        ex = [[sn.index(a), tn.index(b)] for a, b in cc.get('exclude', []) if a in sn and b in tn]
+        return ({'src': src, 'tgt': tgt, 'excluded': ex, 'patterns': None}, {'src': sp, 'tgt': tp}, sn, tn)
 
     def reachable_universe(self):
         """Everything reachable from the start nodes when every option of every choice counts as derived."""
